@@ -386,6 +386,7 @@ class Ombott:
                 environ[config.app_name_header] = '/' + app_name
                 environ["PATH_INFO"] = '/' + app_name + environ["PATH_INFO"]
 
+        out = None
         try:
             out = self._cast(self._handle(environ))
             # rfc2616 section 4.3
@@ -394,14 +395,21 @@ class Ombott:
                 or environ['REQUEST_METHOD'] == 'HEAD'
             ):
                 close = getattr(out, 'close', None)
+                out = []
                 if close:
                     close()
-                out = []
             start_response(response._status_line, response.headerlist)
             return out
         except (KeyboardInterrupt, SystemExit, MemoryError):
             raise
         except Exception as _e:
+            # the response iterable is dropped: release what the handler handed over
+            close = getattr(out, 'close', None)
+            if close:
+                try:
+                    close()
+                except Exception:
+                    pass
             if not self.config.catchall:
                 raise
 
